@@ -184,6 +184,16 @@ func c02Eval(e *Env, m *refplay.Model, c *playCase, report bool) bool {
 	if msg := strikeBeforeRelease(f); msg != "" {
 		return fail("C02/strike-before-release/"+c.Path, msg)
 	}
+	if len(first) > 0 && !report {
+		// reference-model state reached by this history: the clock at its end
+		var end int64
+		for t := range first {
+			if t > end {
+				end = t
+			}
+		}
+		e.R.State(fmt.Sprintf("clock:%d", end))
+	}
 	return true
 }
 
